@@ -7,10 +7,10 @@ from harness.rfhist import Run, RETRY, RETHROW, IGNORE, NEXT
 META = dict(
     level='model_checking',
     level_text='bounded histories of one execution through the real ResponseFuture over real pools: the order of responses, timer firings, executor tasks and connection failures, the kind of each response and every retry decision are symbolic choices; z3 decides each path; after the history every outstanding request is answered (late responses) and the outcome count and result() are checked',
-    level_note='task-level schedules (callbacks run atomically), plus one pre-emption by the delivering thread at any lock acquire/release of add_callback/add_errback (job callback-race); transport, timers, executor faked; histories bounded',
+    level_note='task-level schedules (callbacks run atomically), plus one pre-emption by the delivering thread at any lock acquire/release of add_callback/add_errback (job callback-race) and one pre-emption by another thread (timer, queued task, connection failure, response when no response is being handled) at any lock boundary of short histories (jobs any-race-f*); transport, timers, executor faked; histories bounded',
     technique='symbolic execution (sx proxies) of the real ResponseFuture/HostConnection/Connection code over solver-enumerated event and decision sequences + z3 validity per path',
     bounds=dict(quick='2-3 hosts, <= 2 speculative executions, <= 2 policy consultations, responses {rows, read-timeout error, syntax error}, histories of <= 4 events then drain',
-                thorough='3 hosts, <= 2 speculative executions, <= 3 policy consultations, + unavailable/overloaded responses, histories of <= 6 events then drain'),
+                thorough='3 hosts, <= 2 speculative executions, <= 3 policy consultations, + unavailable/overloaded responses, histories of <= 6 events then drain; any-race2 jobs: 3 events + 2 pre-emptions'),
     assumptions=['race jobs: a timer (client-side timeout, speculative execution) may fire on a thread other than the event loop\'s, so it can overlap the handling of a response - Connection.create_timer does not promise otherwise and the driver itself guards _on_timeout with the connection lock; with the bundled reactors timers run on the event-loop thread, for which these schedules are an over-approximation; two responses are never handled at the same time', 'each stream is answered at most once by the server'],
     stubs=['transport/timers/executor: harness kit', 'codec: identity', 'retry policy: decision oracle (every decision explored)'],
     outside=['callbacks that raise', 'pre-emption inside lock-free regions other than the sync points of add_callback/add_errback', 'paging (C18), re-prepare (C19)'],
@@ -23,7 +23,7 @@ def encoded_functions():
             R._on_timeout, R._on_speculative_execute, R.send_request, R._query, R.result, R.add_callback, R.add_errback]
 
 
-def h_history(V, steps=4, spec=0, hosts=2, responses=('rows', 'read_timeout', 'syntax'), calls=2, defunct=True, race=False):
+def h_history(V, steps=4, spec=0, hosts=2, responses=('rows', 'read_timeout', 'syntax'), calls=2, defunct=True, race=False, budget=1):
     run = Run(V, n_hosts=hosts, responses=responses, decisions=(RETRY, RETHROW, IGNORE, NEXT), levels=(None,),
               spec_attempts=spec, idempotent=spec > 0, allow_defunct=defunct, max_policy_calls=calls)
     rf = run.rf
@@ -31,7 +31,7 @@ def h_history(V, steps=4, spec=0, hosts=2, responses=('rows', 'read_timeout', 's
         # general pre-emption: at any lock acquire/release of any driver function, while the running thread holds no
         # lock, another thread performs one of the enabled events (a response, a timer, a queued task, a socket error)
         from harness import kit
-        rfhist.arm_race(V, run)
+        rfhist.arm_race(V, run, budget)
     rf.send_request()
     fired_timeout = [False]
     for i in range(steps):
@@ -121,4 +121,11 @@ def jobs(tier):
         for first in range(3):
             js.append(Job('any-race-f%d' % first, 'h_history', dict(steps=4, spec=1, hosts=2, responses=('rows', 'read_timeout'), calls=2, race=True),
                           dict(max_seconds=1200, pin={'ev0': first}, max_paths=300000)))
+            js.append(Job('any-race2-f%d' % first, 'h_history', dict(steps=3, spec=1, hosts=2, responses=('rows', 'read_timeout'), calls=2, race=True, budget=2),
+                          dict(max_seconds=1200, pin={'ev0': first}, max_paths=300000)))
+    else:
+        # quick: one pre-emption in short histories with a speculative execution in flight
+        for first in range(3):
+            js.append(Job('any-race-f%d' % first, 'h_history', dict(steps=3, spec=1, hosts=2, responses=('rows', 'read_timeout'), calls=2, race=True),
+                          dict(max_seconds=250, pin={'ev0': first}, max_paths=300000)))
     return js
